@@ -364,6 +364,91 @@ def judge_triples(rec, pname, P):
     _walk["label"] = _walk["case"] = None
 
 
+def judge_bogus_models(rec, pname, P):
+    """A model name no device of the PDK carries - truncated, partial, re-cased, extended, empty - is a request no device satisfies."""
+    import hdl21 as h
+
+    by_kind = {}
+    for kind, model, key, mod, prim in P["table"]:
+        if model is not None:
+            by_kind.setdefault((kind, prim), []).append(str(model))
+    for (kind, prim), names in sorted(by_kind.items(), key=lambda kv: (kv[0][0], kv[0][1].name)):
+        real = set(names)
+        bogus = ["", "no_such_model", " "]
+        for nm in names[:6] + names[-2:]:
+            bogus += [nm[:-1], nm[1:], nm[: max(1, len(nm) // 2)], nm.lower() if nm.lower() != nm else nm.upper(), nm + "x", nm.split("_")[0]]
+        seen = set()
+        for b in bogus:
+            if b in real or b in seen:
+                continue
+            seen.add(b)
+            label = f"{pname}:bogus-model:{kind}:{b!r}"
+            case = {"kind": "bogus-model", "pdk": pname, "device_kind": kind, "prim": prim.name, "model": b}
+            rec.case(key=label, nontrivial=True, sample=case if rec.evaluations % 150 == 5 else None)
+            rec.count("bogus-models.checked")
+            _walk["label"], _walk["case"] = label, case
+            try:
+                top, leaf = make_design(prim, {"model": b}, label)
+                P["compile"](top)
+            except Exception as e:
+                if not is_descriptive(e):
+                    rec.violation(f"selection-raises-undescriptive:{type(e).__name__}",
+                                  f"[{label}] a model name no {kind} device carries raised {type(e).__name__} ({str(e)[:60]!r})", case=case, pdk=pname,
+                                  satisfiable=False)
+                else:
+                    rec.count("bogus-models.rejected-descriptively")
+                continue
+            got = leaf.instances["x"].of
+            rec.violation("unsatisfiable-model-accepted",
+                          f"[{label}] no {kind} device of {pname} is called {b!r}, yet compile returned"
+                          + (f" and selected {got.module.name}" if isinstance(got, h.ExternalModuleCall) else " leaving the primitive in place"),
+                          case=case, pdk=pname, device_kind=kind)
+    _walk["label"] = _walk["case"] = None
+
+
+def judge_same_named(rec, pname, P):
+    """Distinct modules that happen to share a name (two libraries' `Inv`), compiled in ONE list call and as siblings of one parent:
+    every mapped primitive of each is replaced."""
+    import hdl21 as h
+    from hdl21.primitives import Mos, MosType
+
+    for form in ("list", "siblings", "list-after-single"):
+        label = f"{pname}:same-named:{form}"
+        case = {"kind": "same-named", "pdk": pname, "form": form}
+        rec.case(key=label, nontrivial=True, sample=case)
+        rec.count("same-named.checked")
+        _walk["label"], _walk["case"] = label, case
+        n = next(_uid)
+        mods = []
+        mos = [e for e in P["table"] if e[0] == "mos" and len(e[3].port_list) == 4][:3]
+        for k, (kind, model, key, mod, prim) in enumerate(mos):
+            m = h.Module(name=f"SameName{n}")
+            ports = {p: m.add(h.Port(), name=p) for p in ("d", "g", "s", "b")}
+            params = {"model": model} if model is not None else ({"tp": key[0], "vth": key[1]} if pname == "asap7" else {"tp": key[0]})
+            m.add(Mos(**params)(**ports), name="x")
+            mods.append(m)
+        try:
+            if form == "list":
+                P["compile"](mods)
+            elif form == "list-after-single":
+                P["compile"](mods[0])
+                P["compile"](mods[1:])
+            else:
+                parent = h.Module(name=f"SameNameParent{n}")
+                sig = {p: parent.add(h.Signal(), name=p) for p in ("d", "g", "s", "b")}
+                for k, m in enumerate(mods):
+                    parent.add(h.Instance(of=m)(**sig), name=f"u{k}")
+                P["compile"](parent)
+        except Exception as e:
+            rec.violation(f"compile-raises:{type(e).__name__}", f"[{label}] compile raised {type(e).__name__}: {str(e)[:100]}", case=case, pdk=pname)
+            continue
+        left = [k for k, m in enumerate(mods) if not isinstance(m.instances["x"].of, h.ExternalModuleCall)]
+        if left:
+            rec.violation("mapped-primitive-not-replaced", f"[{label}] of {len(mods)} distinct modules sharing one name, the generic Mos of module(s) #{left} "
+                                                           f"was left in place", case=case, pdk=pname)
+    _walk["label"] = _walk["case"] = None
+
+
 def judge_compile_forms(rec, allp):
     """hdl21.pdk.compile by default, by name and by module."""
     import hdl21 as h
@@ -476,11 +561,17 @@ def run(ctx, rec):
             for sizes in ("both", "none", "w-only", "l-only"):
                 work.append(("dev", pname, entry, sizes))
         work.append(("triples", pname))
+        work.append(("bogus", pname))
+        work.append(("same-named", pname))
     if ctx.nshards > 1:
         work = work[ctx.shard:: ctx.nshards]
     for w in work:
         if w[0] == "dev":
             judge_device(rec, w[1], allp[w[1]], w[2], w[3])
+        elif w[0] == "bogus":
+            judge_bogus_models(rec, w[1], allp[w[1]])
+        elif w[0] == "same-named":
+            judge_same_named(rec, w[1], allp[w[1]])
         else:
             judge_triples(rec, w[1], allp[w[1]])
     if ctx.shard == 0:
